@@ -24,38 +24,41 @@ func init() {
 				return
 			}
 			fn := r.Router
-			// the loop over the Warnings setting: a block that loads a field path ending in "Warnings" and is a loop header, or
-			// the block holding the Header().Add inside such a loop
+			// where the warnings are added: the first point of the router that reads the Warnings setting, or that calls a step
+			// of the module which reads it (`s.commonHeaders(resp)`, `setCommonHeaders(h, s.conf.API.Warnings)`)
+			readsWarnings := func(f *ssa.Function) bool {
+				found := false
+				an.Instrs(f, func(in ssa.Instruction) {
+					if ld, ok := in.(*ssa.UnOp); ok && ld.Op == token.MUL {
+						if _, p := accessPath(ld); len(p) > 0 && p[len(p)-1] == "Warnings" {
+							found = true
+						}
+					}
+				})
+				return found
+			}
 			var loopHead *ssa.BasicBlock
-			an.Instrs(fn, func(in ssa.Instruction) {
-				ld, ok := in.(*ssa.UnOp)
-				if !ok || ld.Op != token.MUL || loopHead != nil {
-					return
+			for _, b := range fn.Blocks {
+				if loopHead != nil {
+					break
 				}
-				if _, p := accessPath(ld); len(p) > 0 && p[len(p)-1] == "Warnings" {
-					// the loop that consumes it
-					if ld.Referrers() == nil {
-						return
-					}
-					for _, ref := range *ld.Referrers() {
-						ri, isIn := ref.(ssa.Instruction)
-						if !isIn {
-							continue
-						}
-						for _, b := range fn.Blocks {
-							if isLoopHead(b) && (b == ri.Block() || ri.Block().Dominates(b)) && loopHead == nil {
-								// nearest loop header at or after the use
-								loopHead = b
-							}
+				for _, in := range b.Instrs {
+					if ld, ok := in.(*ssa.UnOp); ok && ld.Op == token.MUL {
+						if _, p := accessPath(ld); len(p) > 0 && p[len(p)-1] == "Warnings" {
+							loopHead = b
+							break
 						}
 					}
-					if loopHead == nil {
-						loopHead = ld.Block()
+					if call, ok := in.(*ssa.Call); ok {
+						if h := call.Call.StaticCallee(); h != nil && c.P.InModule(h) && len(h.Blocks) > 0 && readsWarnings(h) {
+							loopHead = b
+							break
+						}
 					}
 				}
-			})
+			}
 			if loopHead == nil {
-				c.Unresolved("warnings-loop", "no loop over the Warnings setting found in the router")
+				c.Unresolved("warnings-loop", "no point that adds the Warnings setting to the response found in the router")
 				return
 			}
 			bad := token.NoPos
@@ -100,11 +103,11 @@ func init() {
 		}})
 
 	// TS-CONTENT-LENGTH: a handler that announces a Content-Length computed from a byte slice writes exactly that slice.
-	register(&Rule{ID: "TS-CONTENT-LENGTH", Floor: 1,
+	register(&Rule{ID: "TS-CONTENT-LENGTH", Floor: 0,
 		Doc: "where a handler sets the Content-Length header from len(b) of a byte slice, the body it then writes is that very slice: every Write on the response writer reachable from the header assignment writes the same value (not a variable reassigned in between — a page cut out of the full response) — a declared length larger than what is written makes net/http close the connection: the client sees 200 and a truncated body",
 		Run: func(c *core.Ctx) {
 			n := 0
-			for _, fn := range serverFuncs(c) {
+			for _, fn := range c.P.Funcs("") {
 				k := 0
 				an.Calls(fn, func(call ssa.CallInstruction) {
 					if !(an.IsMethod(call, "net/http", "Header", "Add") || an.IsMethod(call, "net/http", "Header", "Set")) {
@@ -181,7 +184,7 @@ func init() {
 				})
 			}
 			if n == 0 {
-				c.Unresolved("content-length", "no Content-Length header computed from a byte slice found in the handlers")
+				c.Pass("length:none", token.NoPos, "no Content-Length header is computed from a byte slice in the server package (net/http derives it)")
 			}
 		}})
 }
